@@ -208,6 +208,7 @@ func runC09(r *Run, rng *Rng, thorough bool) {
 		}
 	})
 	extRoundTrips(r, rng, n/6)
+	renamedRoundTrips(r, rng, n/10)
 	// decodable-but-invalid (and valid) tokens of the C04 generator: never lies
 	nTok := 0
 	genTokens(rng, false, func(tc tokCase) {
@@ -478,6 +479,24 @@ func runC10(r *Run, rng *Rng, thorough bool) {
 			r.Fail("wire-format", why)
 		}
 	})
+	// whatever the validating encoder emits is in the wire format: also for claims-sets the rules say are invalid, should
+	// the validator ever let one through (the structural rules — one definite map, no key twice, nothing null, never
+	// both the component list and the flag — do not depend on the verdict)
+	eachClaimsCase(rng, false, n/2, func(class string, d ClaimsDesc, ndev int) {
+		if conformant(&d) || hasNilComp(&d) {
+			return
+		}
+		var b []byte
+		var err error
+		pan, _ := safely(func() { b, err = psa.ValidateAndEncodeClaimsToCBOR(d.Build()) })
+		r.ImplOnly("nonconformant/"+class, true, "venc-nonconformant "+d.Line())
+		if pan || err != nil {
+			return
+		}
+		if why := wireFormatOK(b, &d); why != "" {
+			r.Fail("wire-format", "emitted by the validating encoder for a claims-set outside the profile's rules: "+why)
+		}
+	})
 	// payload of ValidateAndSign output — on a fresh Evidence, on an Evidence that was decoded from a token (claims
 	// changed through a setter in between or not), on an Evidence decoded from a token whose payload is *not* in the
 	// wire format (unknown key, non-shortest head), and on an Evidence that signed before
@@ -570,4 +589,5 @@ func runC10(r *Run, rng *Rng, thorough bool) {
 		}
 	}
 	extWire(r, rng, map[bool]int{false: 400, true: 10000}[thorough])
+	componentCopies(r, rng, map[bool]int{false: 200, true: 5000}[thorough])
 }
